@@ -8,8 +8,8 @@
 
   An abstract definition is the header taken from the file path (namespace components, short name, version,
   fixed port-ID) plus the statement list with structured types.  The outcome is accepted / rejected
-  (`InvalidDefinitionError`) / internal error; the only internal error modelled is the one the code produces for a
-  service type used as a field type (every other check passing).  Constant values and expressions are not part of
+  (`InvalidDefinitionError`); a service type used as a field / constant / array element type is rejected
+  (`Attribute.__init__`, `ArrayType.__init__`).  Constant values and expressions are not part of
   this model (C04/C12); `@assert`/`@print` do not influence acceptance of a definition whose expressions are valid.
 
   Import-free, total, executable.
@@ -79,16 +79,14 @@ def matchesPattern (n : List Char) : Bool :=
   matchPrefixDigit "com".toList n || matchPrefixDigit "lpt".toList n ||
   matchUnderscores n
 
-/-- `check_name` : `true` iff no `InvalidNameError` -/
+/-- `check_name` : `true` iff no `InvalidNameError`.  The character set is checked on the name as written, the reserved
+    words and patterns on the lower-cased name. -/
 def checkName (name : String) : Bool :=
-  let raw := name.toList
-  if raw.isEmpty then false
-  else
-    let n := lower raw
-    match n with
-    | [] => false
-    | c :: _ =>
-      validFirst c && n.all validCont && !(reservedWords.any fun w => w.toList == n) && !matchesPattern n
+  match name.toList with
+  | [] => false
+  | c :: rest =>
+    validFirst c && (c :: rest).all validCont &&
+      !(reservedWords.any fun w => w.toList == lower (c :: rest)) && !matchesPattern (lower (c :: rest))
 
 /-! ### types -/
 
@@ -385,7 +383,7 @@ def portOk (h : Header) (service : Bool) : Bool :=
 def usesService (b : BState) : Bool :=
   (b.done ++ [b.cur]).any fun sc => sc.attrs.any fun a => a.ty.usesService
 
-/-- every check of `finalize` -/
+/-- every check of `finalize` (a service type used as an attribute type is rejected earlier, see `accept`) -/
 def finalOk (h : Header) (b : BState) : Bool :=
   let comps := h.ns ++ [h.short]
   versionOk h.major h.minor &&
@@ -396,7 +394,7 @@ def finalOk (h : Header) (b : BState) : Bool :=
         compositeNameOk comps && portOk h true)
 
 inductive Outcome where
-  | ok | invalid | internal
+  | ok | invalid
   deriving Repr, DecidableEq, Inhabited
 
 structure Defn where
@@ -404,13 +402,10 @@ structure Defn where
   stmts : List RStmt
   deriving Repr, DecidableEq, Inhabited
 
-/-- accepted, rejected, or the internal error of a service type used as a field type -/
+/-- accepted or rejected -/
 def accept (d : Defn) : Outcome :=
   match brun BState.init d.stmts with
   | none => .invalid
-  | some b =>
-    if !finalOk d.header b then .invalid
-    else if usesService b then .internal
-    else .ok
+  | some b => if finalOk d.header b && !usesService b then .ok else .invalid
 
 end Rules
